@@ -12,6 +12,7 @@ From PowHsm Require Import Proofs.SrcLiftPin.
 From PowHsm Require Import Gen.SrcM.
 From PowHsm Require Import Proofs.SrcEquivDongleM.
 From PowHsm Require Import Proofs.SrcEquivPinM.
+From PowHsm Require Import Proofs.SrcEquivBringupM.
 Open Scope N_scope.
 
 (* device policy: 8 alphanumeric characters, at least one letter (tied to the generated character tables by closed checks) *)
@@ -178,5 +179,15 @@ Theorem C10_source_send_pin_is_model :
          srcm_HSM2Dongle___send_pin self (VBytes pin) (VBool prepend) w =
          mres (fun _ : unit => VNone) (send_pin pin prepend w).
 Proof. exact (@srcm_send_pin_ok). Qed.
+
+(* TIE BY TRANSLATION (device monad): the PIN-change block of _handle_bootloader (start_change, new_pin, commit_change / abort_change, finally: interrupt) as regenerated from the source text is the model's on every world - same PIN-file writes, same PIN object, same APDUs *)
+Theorem C10_source_handle_bootloader_is_model :
+  forall (fields : list (string * pv)) (w : world),
+         pin_small w ->
+         pin_new_small w ->
+         rand_small w ->
+         srcm_HSM2ProtocolLedger___handle_bootloader (proto_obj fields) w =
+         mres (fun _ : unit => VNone) (handle_bootloader KLedger w).
+Proof. exact (@srcm_handle_bootloader_ok). Qed.
 
 Example C10_nonvacuous : True. Proof. exact I. Qed. (* object-level and history-level runs closed by vm_compute in Proofs/C10.v *)
